@@ -33,6 +33,10 @@ type World struct {
 	ProbeKeys []string
 	UseShape  bool // include private len/cap/aliasing in the key
 	OnlyString bool  // Check performs only the String() observation (used by C02's history sub-space)
+	// Focus restricts Check to one observer section: "" = everything, or "string", "format", "aggregates",
+	// "views", "core" (used by the property-specific history sub-spaces)
+	Focus string
+	hist  map[interface{}]uint32 // per container: history bits (part of the state key)
 	NoString  bool   // skip the String() observation (scenarios whose values are not JSON-representable)
 	Tag       string // scenario-specific marker that is part of the state key (e.g. the construction route)
 }
@@ -259,10 +263,20 @@ func (w *World) Check() (msg, sig string) {
 	for _, c := range conts {
 		probes = append(probes, c)
 	}
+	// the model heap is acyclic by construction; if the REAL structure contains a cycle (storage shared by
+	// mistake can make a list its own element) every recursive observer would overflow the stack, so this
+	// is detected first through Get/Count only
+	for _, reg := range w.Regs {
+		if reg != nil {
+			if path := realCycle(w.real[reg]); path != "" {
+				return fmt.Sprintf("the real container graph contains a cycle (%s) although the program built an acyclic structure %s", path, Show(reg)), "observe/cycle"
+			}
+		}
+	}
 	// String() of every register root must denote the model content (decoded by encoding/json). Calling
 	// it after every transition also makes serialisation part of every history, so state that a
 	// serialiser keeps between calls (caches, flags) is exercised.
-	if !w.NoString {
+	if !w.NoString && w.want("string") {
 		for _, reg := range w.Regs {
 			if reg == nil {
 				continue
@@ -290,7 +304,7 @@ func (w *World) Check() (msg, sig string) {
 			}
 		}
 	}
-	if w.OnlyString {
+	if w.OnlyString || w.Focus == "string" {
 		return "", ""
 	}
 	for _, c := range conts {
@@ -300,7 +314,12 @@ func (w *World) Check() (msg, sig string) {
 			if r == nil {
 				return fmt.Sprintf("model list %s has no real counterpart", Show(m)), "harness/unbound"
 			}
-			if msg, sig = w.CheckList(r, m, probes); msg != "" {
+			if w.want("core") {
+				if msg, sig = w.CheckList(r, m, probes); msg != "" {
+					return
+				}
+			}
+			if msg, sig = w.extraList(r, m); msg != "" {
 				return
 			}
 		case *O:
@@ -308,7 +327,12 @@ func (w *World) Check() (msg, sig string) {
 			if r == nil {
 				return fmt.Sprintf("model object %s has no real counterpart", Show(m)), "harness/unbound"
 			}
-			if msg, sig = w.CheckObject(r, m, probes); msg != "" {
+			if w.want("core") {
+				if msg, sig = w.CheckObject(r, m, probes); msg != "" {
+					return
+				}
+			}
+			if msg, sig = w.extraObject(r, m); msg != "" {
 				return
 			}
 		}
@@ -568,6 +592,7 @@ func (w *World) Key() string {
 		id     int
 	}
 	var spans []span
+	boxes := map[uintptr]string{}
 	var visit func(v interface{})
 	visit = func(v interface{}) {
 		switch x := v.(type) {
@@ -593,6 +618,9 @@ func (w *World) Key() string {
 			id := len(ids)
 			ids[x] = id
 			sb.WriteString("L" + strconv.Itoa(id))
+			if h := w.Hist(x); h != 0 {
+				sb.WriteString("h" + strconv.Itoa(int(h)))
+			}
 			if w.UseShape {
 				if r := w.RL(x); r != nil {
 					if sp, ok := peek.List(r); ok {
@@ -609,6 +637,24 @@ func (w *World) Key() string {
 						if sp.Cap > sp.Len {
 							if spare, ok := peek.Spare(r); ok {
 								sb.WriteString("!" + spare)
+							}
+						}
+						// which slots hold the identical scalar field object (within this list or in a list seen
+						// earlier): NewListOf, SubList and Concat share field objects between slots / lists
+						if words, ok := peek.SlotWords(r); ok {
+							for i := 0; i < sp.Len && 2*i+1 < len(words); i++ {
+								if i < len(x.E) && isCont(x.E[i]) {
+									continue
+								}
+								dp := words[2*i+1]
+								if dp == 0 {
+									continue
+								}
+								if first, seen := boxes[dp]; seen {
+									sb.WriteString("=" + strconv.Itoa(i) + ":" + first)
+								} else {
+									boxes[dp] = strconv.Itoa(id) + "." + strconv.Itoa(i)
+								}
 							}
 						}
 						sb.WriteString(">")
@@ -632,7 +678,11 @@ func (w *World) Key() string {
 			}
 			id := len(ids)
 			ids[x] = id
-			sb.WriteString("O" + strconv.Itoa(id) + "{")
+			sb.WriteString("O" + strconv.Itoa(id))
+			if h := w.Hist(x); h != 0 {
+				sb.WriteString("h" + strconv.Itoa(int(h)))
+			}
+			sb.WriteString("{")
 			for _, k := range sortedKeys(x.M) {
 				sb.WriteString(strconv.Quote(k) + ":")
 				visit(x.M[k])
@@ -900,4 +950,273 @@ func (w *World) Touch() {
 			}
 		})
 	}
+}
+
+
+// History bits of a container: facts about its past that its content does not show but that hidden
+// state (caches, flags) may depend on. They are part of the state key, so states that differ only in
+// such a fact are not merged.
+const (
+	HObservedEver     = 1 << iota // the observers have been called on it at some point
+	HObservedSinceMut             // ... and no mutation happened since
+	HSortedEver
+	HReversedEver
+)
+
+func (w *World) Hist(m interface{}) uint32 {
+	if w.hist == nil {
+		return 0
+	}
+	return w.hist[m]
+}
+
+// Mark sets history bits of a container.
+func (w *World) Mark(m interface{}, bits uint32) {
+	if w.hist == nil {
+		w.hist = map[interface{}]uint32{}
+	}
+	w.hist[m] |= bits
+}
+
+// Mutated records that a container was modified (clears "observed since the last mutation").
+func (w *World) Mutated(m interface{}) {
+	if w.hist != nil {
+		w.hist[m] &^= HObservedSinceMut
+	}
+}
+
+// Observe calls every observer on one container (and judges what it returns, like Check does for
+// that container) and records that in the container's history bits.
+func (w *World) Observe(m interface{}) (msg, sig string) {
+	w.Mark(m, HObservedEver|HObservedSinceMut)
+	if path := realCycle(w.real[m]); path != "" {
+		return fmt.Sprintf("the real container graph contains a cycle (%s)", path), "observe/cycle"
+	}
+	var probes []interface{}
+	probes = append(probes, w.ProbeVals...)
+	if !w.NoString && w.want("string") {
+		var text string
+		if try(func() {
+			switch r := w.real[m].(type) {
+			case at.List:
+				text = r.String()
+			case at.Object:
+				text = r.String()
+			}
+		}) {
+			return "String() panicked", "observe/string-panic"
+		}
+		dec, err := decodeTo(text)
+		if err != nil {
+			return fmt.Sprintf("String() of %s is %q: %v", Show(m), text, err), "observe/string-invalid"
+		}
+		if why := matchDecoded(dec, m); why != "" {
+			return fmt.Sprintf("String() of a container that should be %s is %q: %s", Show(m), text, why), "observe/string-content"
+		}
+	}
+	switch x := m.(type) {
+	case *L:
+		if w.want("core") {
+			if msg, sig = w.CheckList(w.RL(x), x, probes); msg != "" {
+				return
+			}
+		}
+		return w.extraList(w.RL(x), x)
+	case *O:
+		if w.want("core") {
+			if msg, sig = w.CheckObject(w.RO(x), x, probes); msg != "" {
+				return
+			}
+		}
+		return w.extraObject(w.RO(x), x)
+	}
+	return "", ""
+}
+
+func (w *World) want(section string) bool { return w.Focus == "" || w.Focus == section }
+
+func decodeTo(text string) (interface{}, error) {
+	d := json.NewDecoder(strings.NewReader(text))
+	d.UseNumber()
+	var dec interface{}
+	err := d.Decode(&dec)
+	return dec, err
+}
+
+// extraList: observers beyond the core ones: FormatString at two indents, aggregates, typed slices and All*.
+func (w *World) extraList(r at.List, m *L) (msg, sig string) {
+	if w.want("format") {
+		for _, ind := range []int{2, 4} {
+			var text string
+			if try(func() { text = r.FormatString(ind) }) {
+				return fmt.Sprintf("FormatString(%d) panicked on %s", ind, Show(m)), "observe/format-panic"
+			}
+			dec, err := decodeTo(text)
+			if err != nil {
+				return fmt.Sprintf("FormatString(%d) of %s is %q: %v", ind, Show(m), text, err), "observe/format-invalid"
+			}
+			if why := matchDecoded(dec, m); why != "" {
+				return fmt.Sprintf("FormatString(%d) of a list that should be %s is %q: %s", ind, Show(m), text, why), "observe/format-content"
+			}
+		}
+	}
+	if w.want("aggregates") {
+		numeric, exact := true, true
+		sum, prod := 0.0, 1.0
+		isum, iprod, imin, imax, anyInt := 0, 1, 0, 0, false
+		minV, maxV := math.Inf(1), math.Inf(-1)
+		for _, e := range m.E {
+			switch x := e.(type) {
+			case int:
+				if x > 1<<20 || x < -(1<<20) {
+					exact = false
+				}
+				sum += float64(x)
+				prod *= float64(x)
+				isum += x
+				iprod *= x
+				if !anyInt || x < imin {
+					imin = x
+				}
+				if !anyInt || x > imax {
+					imax = x
+				}
+				anyInt = true
+				minV, maxV = math.Min(minV, float64(x)), math.Max(maxV, float64(x))
+			case float64:
+				sum += x
+				prod *= x
+				minV, maxV = math.Min(minV, x), math.Max(maxV, x)
+			default:
+				numeric = false
+			}
+		}
+		var gi [4]int
+		if try(func() { gi = [4]int{r.IntSum(), r.IntProd(), r.IntMin(), r.IntMax()} }) {
+			return "an Int* aggregate panicked", "observe/aggregate-panic"
+		}
+		if gi != [4]int{isum, iprod, imin, imax} {
+			return fmt.Sprintf("IntSum/IntProd/IntMin/IntMax = %v on a list that should be %s, want %v", gi, Show(m), [4]int{isum, iprod, imin, imax}), "observe/int-aggregate"
+		}
+		if numeric && exact {
+			if len(m.E) == 0 {
+				minV, maxV = 0, 0
+			}
+			var g [4]float64
+			if try(func() { g = [4]float64{r.Sum(), r.Prod(), r.Min(), r.Max()} }) {
+				return "a float aggregate panicked", "observe/aggregate-panic"
+			}
+			if g != [4]float64{sum, prod, minV, maxV} {
+				return fmt.Sprintf("Sum/Prod/Min/Max = %v on a list that should be %s, want %v", g, Show(m), [4]float64{sum, prod, minV, maxV}), "observe/float-aggregate"
+			}
+			if len(m.E) > 0 {
+				var avg float64
+				if try(func() { avg = r.Avg() }) || avg != sum/float64(len(m.E)) {
+					return fmt.Sprintf("Avg = %v on a list that should be %s, want %v", avg, Show(m), sum/float64(len(m.E))), "observe/float-aggregate"
+				}
+			}
+		}
+	}
+	if w.want("views") {
+		var ints []int
+		var strs []string
+		var lists, objs int
+		for _, e := range m.E {
+			switch x := e.(type) {
+			case int:
+				ints = append(ints, x)
+			case string:
+				strs = append(strs, x)
+			case *L:
+				lists++
+			case *O:
+				objs++
+			}
+		}
+		var gi []int
+		var gs []string
+		var gl, gob int
+		var allI, allS bool
+		if try(func() {
+			gi, gs, gl, gob = r.IntSlice(), r.StringSlice(), len(r.ListSlice()), len(r.ObjectSlice())
+			allI, allS = r.AllInts(), r.AllStrings()
+		}) {
+			return "a typed view panicked", "observe/views-panic"
+		}
+		if fmt.Sprint(gi) != fmt.Sprint(ints) || fmt.Sprint(gs) != fmt.Sprint(strs) || gl != lists || gob != objs ||
+			allI != (len(ints) == len(m.E)) || allS != (len(strs) == len(m.E)) {
+			return fmt.Sprintf("typed views of a list that should be %s: IntSlice=%v StringSlice=%v ListSlice=%d ObjectSlice=%d AllInts=%v AllStrings=%v", Show(m), gi, gs, gl, gob, allI, allS), "observe/views"
+		}
+	}
+	return "", ""
+}
+
+func (w *World) extraObject(r at.Object, m *O) (msg, sig string) {
+	if w.want("format") {
+		for _, ind := range []int{2, 4} {
+			var text string
+			if try(func() { text = r.FormatString(ind) }) {
+				return fmt.Sprintf("FormatString(%d) panicked on %s", ind, Show(m)), "observe/format-panic"
+			}
+			dec, err := decodeTo(text)
+			if err != nil {
+				return fmt.Sprintf("FormatString(%d) of %s is %q: %v", ind, Show(m), text, err), "observe/format-invalid"
+			}
+			if why := matchDecoded(dec, m); why != "" {
+				return fmt.Sprintf("FormatString(%d) of an object that should be %s is %q: %s", ind, Show(m), text, why), "observe/format-content"
+			}
+		}
+	}
+	return "", ""
+}
+
+
+// realCycle walks a real container with Get/Count/ForEach only and reports a cycle ("" if none).
+func realCycle(root interface{}) string {
+	onPath := map[interface{}]bool{}
+	var walk func(v interface{}, depth int) string
+	walk = func(v interface{}, depth int) string {
+		switch x := v.(type) {
+		case at.List:
+			if x == nil {
+				return ""
+			}
+			if onPath[x] || depth > 64 {
+				return fmt.Sprintf("a list reachable at depth %d contains itself", depth)
+			}
+			onPath[x] = true
+			defer delete(onPath, x)
+			n := 0
+			try(func() { n = x.Count() })
+			for i := 0; i < n; i++ {
+				var e interface{}
+				if try(func() { e = x.Get(i) }) {
+					continue
+				}
+				if r := walk(e, depth+1); r != "" {
+					return r
+				}
+			}
+		case at.Object:
+			if x == nil {
+				return ""
+			}
+			if onPath[x] || depth > 64 {
+				return fmt.Sprintf("an object reachable at depth %d contains itself", depth)
+			}
+			onPath[x] = true
+			defer delete(onPath, x)
+			res := ""
+			try(func() {
+				x.ForEachValue(func(e interface{}) {
+					if res == "" {
+						res = walk(e, depth+1)
+					}
+				})
+			})
+			return res
+		}
+		return ""
+	}
+	return walk(root, 0)
 }
